@@ -7,6 +7,8 @@ import (
 	"encoding/hex"
 	"fmt"
 	"math"
+	"strings"
+	"time"
 
 	sdkmath "cosmossdk.io/math"
 
@@ -16,6 +18,7 @@ import (
 	"github.com/bandprotocol/chain/v3/pkg/bandrng"
 	"github.com/bandprotocol/chain/v3/pkg/tss"
 	bandtesting "github.com/bandprotocol/chain/v3/testing"
+	bandtsskeeper "github.com/bandprotocol/chain/v3/x/bandtss/keeper"
 	bandtsstypes "github.com/bandprotocol/chain/v3/x/bandtss/types"
 	tsskeeper "github.com/bandprotocol/chain/v3/x/tss/keeper"
 	tsstypes "github.com/bandprotocol/chain/v3/x/tss/types"
@@ -276,6 +279,43 @@ func membersCase(app *fx.App, tr *fx.Trace, r *fx.Rng) {
 	}
 }
 
+// groupCase: a governance MsgTransitionGroup proposes the members of the next signing group; some lists name one account
+// twice, also spelled differently (bech32 is case-insensitive: all-uppercase is the same account).  A group holding one
+// participant twice could put that participant on a committee twice.
+func groupCase(app *fx.App, tr *fx.Trace, r *fx.Rng) {
+	ctx, _ := app.Ctx.CacheContext()
+	ctx = ctx.WithBlockTime(time.Unix(1_700_000_000, 0).UTC())
+	tr.Reset(nil)
+	pool := []sdk.AccAddress{bandtesting.Alice.Address, bandtesting.Bob.Address, bandtesting.Carol.Address, bandtesting.Validators[0].Address}
+	n := r.Range(1, 5)
+	var idx []int
+	var members []string
+	for i := 0; i < n; i++ {
+		k := r.Intn(len(pool))
+		if r.Chance(2, 3) { // mostly distinct
+			k = i % len(pool)
+		}
+		s := pool[k].String()
+		if r.Chance(1, 3) {
+			s = strings.ToUpper(s)
+		}
+		idx = append(idx, k)
+		members = append(members, s)
+	}
+	th := uint64(r.Range(1, n))
+	bp := app.BandtssKeeper.GetParams(ctx)
+	msg := bandtsstypes.NewMsgTransitionGroup(members, th, ctx.BlockTime().Add((bp.MinTransitionDuration+bp.MaxTransitionDuration)/2), app.BandtssKeeper.GetAuthority())
+	vb := fx.ErrStr(msg.ValidateBasic())
+	errS := ""
+	if vb == "" {
+		errS = fx.Try(func() error {
+			_, err := bandtsskeeper.NewMsgServerImpl(app.BandtssKeeper).TransitionGroup(ctx, msg)
+			return err
+		})
+	}
+	tr.Op(fx.M{"op": "createGroup", "accounts": idx, "threshold": th, "out": fx.M{"validateBasic": vb, "err": errS}})
+}
+
 // signingCase: the committee of a REAL signing.  A DKG-built group gets nonces from some members, several signings are
 // requested through the tss keeper (so that signing ids differ from the group id and from each other) and the members
 // assigned to each signing's first attempt are read back.  The line is a `randomMembers` line whose nonce is the one the
@@ -346,6 +386,8 @@ func main() {
 		case 5:
 			if i%12 == 11 {
 				signingCase(app, tr, r.Fork(), i)
+			} else if i%24 == 5 {
+				groupCase(app, tr, r.Fork())
 			} else {
 				membersCase(app, tr, r.Fork())
 			}
